@@ -61,14 +61,16 @@ PATHS = {
     "text": D + "/a.txt", "empty": D + "/empty.txt", "bin": D + "/bin.dat",
     "dir": D + "/sub", "inner": D + "/sub/in.txt", "missing": D + "/nope.txt",
     "noparent": "/sim/nodir/x.txt", "prog": "/sim/bin/tool",
-    "failprog": "/sim/bin/fail", "script": D + "/ok.ckl",
+    "failprog": "/sim/bin/fail", "noisy": "/sim/bin/noisy",
+    "bigout": "/sim/bin/bigout", "script": D + "/ok.ckl",
     "badscript": D + "/bad.ckl", "errscript": D + "/err.ckl",
     "new": D + "/new.txt", "newdir": D + "/made", "deep": D + "/x/y/z",
     "rel": "rel.txt", "dirslash": D + "/sub/", "root": D,
 }
 STATE = {"text": "file", "empty": "file", "bin": "file", "dir": "dir",
          "inner": "file", "missing": "missing", "noparent": "missing",
-         "prog": "file", "failprog": "file", "script": "file",
+         "prog": "file", "failprog": "file", "noisy": "file",
+         "bigout": "file", "script": "file",
          "badscript": "file", "errscript": "file", "new": "missing",
          "newdir": "missing", "deep": "missing", "rel": "missing",
          "dirslash": "dir", "root": "dir"}
@@ -214,14 +216,19 @@ def gen_case(rng, tier, k):
             src = f"make_dir({q(p)}" + rng.choice([")", ", TRUE)"])
             name = "make_dir"
         elif r < 0.95:
-            pk, p = path(["prog", "failprog", "missing", "dir", "text"])
+            pk, p = path(["prog", "failprog", "missing", "dir", "text",
+                          "noisy", "bigout", "noisy"])
             prog = p if rng.random() < 0.8 else rng.choice(["tool", "nope"])
             args = rng.choice(["[]", "['a', 1]", "[NULL]", "'notalist'"])
             extra = rng.choice([
                 "", "", f", {q(PATHS['dir'])}", f", {q(PATHS['missing'])}",
-                ", NULL, TRUE", f", NULL, FALSE, {q(PATHS['new'])}",
-                f", NULL, FALSE, {q(PATHS['noparent'])}",
-                f", NULL, FALSE, {q(PATHS['dir'])}"])
+                ", echo = TRUE", ", NULL, TRUE",
+                f", output_file = {q(PATHS['new'])}",
+                f", output_file = {q(PATHS['new'])}",
+                f", {q(PATHS['dir'])}, FALSE, {q(PATHS['new'])}",
+                f", {q(PATHS['dir'])}, TRUE, {q(PATHS['text'])}",
+                f", output_file = {q(PATHS['noparent'])}",
+                f", output_file = {q(PATHS['dir'])}"])
             src = f"execute({q(prog)}, {args}{extra})"
             name = "execute"
         elif r < 0.97:
@@ -242,6 +249,12 @@ def gen_case(rng, tier, k):
             src = rng.choice(["date()", "timestamp()", "now()",
                               "string(date())", "date() < date()"])
             name = "clock"
+        if not src.startswith(("def ", "for ", "do ")) and \
+                rng.random() < 0.25:
+            # the result is consumed by another operation
+            src = rng.choice(["string({X})", "length(string({X}))",
+                              "[{X}]", "{X} == {X}", "'' + string({X})",
+                              "type({X})"]).replace("{X}", src)
         wrapped = rng.random() < 0.5
         faults = []
         if rng.random() < fault_rate:
@@ -284,6 +297,58 @@ def gen_case(rng, tier, k):
             "ops": ops}
 
 
+def malformed(v, depth=0):
+    """is this result a well-formed language value?  (a built-in that hands
+    back e.g. an int value holding a float or a string value holding None
+    lets host exceptions escape as soon as the value is used)"""
+    import datetime
+    from ckl import values as VV
+    if not isinstance(v, VV.Value):
+        return f"not a language value: {type(v).__name__}"
+    if isinstance(v, VV.ValueBoolean):
+        return None if isinstance(v.value, bool) else \
+            f"boolean holding {type(v.value).__name__}"
+    if isinstance(v, VV.ValueInt):
+        return None if type(v.value) is int else \
+            f"int holding {type(v.value).__name__}"
+    if isinstance(v, VV.ValueDecimal):
+        return None if type(v.value) in (int, float) else \
+            f"decimal holding {type(v.value).__name__}"
+    if isinstance(v, VV.ValueString):
+        return None if isinstance(v.value, str) else \
+            f"string holding {type(v.value).__name__}"
+    if isinstance(v, VV.ValueDate):
+        return None if isinstance(v.value, datetime.datetime) else \
+            f"date holding {type(v.value).__name__}"
+    if depth > 3:
+        return None
+    if isinstance(v, VV.ValueList):
+        if not isinstance(v.value, list):
+            return f"list holding {type(v.value).__name__}"
+        for x in v.value[:50]:
+            r = malformed(x, depth + 1)
+            if r:
+                return "list element: " + r
+    if isinstance(v, VV.ValueObject):
+        for k2, x in list(v.value.items())[:50]:
+            if not isinstance(k2, str):
+                return f"object member name {type(k2).__name__}"
+            r = malformed(x, depth + 1)
+            if r:
+                return f"member {k2}: " + r
+    if isinstance(v, VV.ValueMap):
+        for k2, x in list(v.value.items())[:50]:
+            r = malformed(k2, depth + 1) or malformed(x, depth + 1)
+            if r:
+                return "map entry: " + r
+    if isinstance(v, VV.ValueSet):
+        for x in list(v.value)[:50]:
+            r = malformed(x, depth + 1)
+            if r:
+                return "set element: " + r
+    return None
+
+
 def build_world(sim):
     w = sim.w
     w.put_file(PATHS["text"], "l1\nl2\nl3\n")
@@ -296,6 +361,11 @@ def build_world(sim):
     w.put_file(PATHS["script"], "def from_script = 5; from_script + 1")
     w.put_file(PATHS["badscript"], "def x = ;")
     w.put_file(PATHS["errscript"], "error 'in-script'")
+    w.put_file(PATHS["noisy"], "#!noisy\n")
+    w.put_file(PATHS["bigout"], "#!bigout\n")
+    # a child that writes a lot to stderr / to stdout
+    w.programs[PATHS["noisy"]] = (0, "o1\no2\n", "E" * 200000)
+    w.programs[PATHS["bigout"]] = (0, "line\n" * 40000, "warn\n")
     w.programs[PATHS["prog"]] = (0, "tool output\n")
     w.programs[PATHS["failprog"]] = (3, "")
     w.programs["tool"] = (0, "tool output\n")
@@ -354,7 +424,9 @@ def run_case(case, root):
 
             def thunk():
                 try:
-                    return it.interpret(src, "op")
+                    r = it.interpret(src, "op")
+                    holder["result"] = r
+                    return r
                 except CklRuntimeError as e:
                     holder["value"] = e.value
                     raise
@@ -404,6 +476,15 @@ def run_case(case, root):
                   f"op#{idx} `{src}` raised a syntax error at run time, "
                   f"which catch cannot intercept: {out['msg']}")
                 break
+            if out["kind"] == "val":
+                bad = malformed(holder.get("result"))
+                if bad is None and out["val"].startswith("<unprintable"):
+                    bad = "cannot be rendered: " + out["val"]
+                if bad:
+                    V("well-formed-result", f"malformed-result:{op['name']}",
+                      f"op#{idx} `{src}` returned a malformed value "
+                      f"({bad}); using it raises host exceptions")
+                    break
             if out["kind"] == "rt":
                 if not isinstance(holder.get("value"), Value):
                     V("error-value", f"error-value-not-a-value:{op['name']}",
